@@ -5,7 +5,7 @@
 From Coq Require Import ZArith List Bool Lia.
 From PCB Require Import lib.Result lib.PyInt lib.GfxPrims gen.Gen_viewport gen.Gen_raster
   model.Matrix model.Viewport model.Raster
-  proofs.Matrix_proofs proofs.Viewport_proofs proofs.Raster_bridge proofs.Raster_proofs.
+  proofs.Matrix_proofs proofs.Viewport_proofs proofs.Raster_safe proofs.Raster_proofs.
 Import ListNotations.
 Open Scope Z_scope.
 
@@ -67,18 +67,21 @@ Proof.
 Qed.
 
 (* ---- 2. every request issued by the REGENERATED generators satisfies those hypotheses, for ALL integer
-   coordinates, attributes and line styles (cutoff_coord's clamp is what makes the filled box safe) *)
+   coordinates, attributes and line styles (cutoff_coord's clamp is what makes the filled box safe); proved by
+   invariants of the generated loops that do not depend on the geometry of the line *)
 Theorem C30_requests_ok : forall vp, wf_vp vp ->
   (forall x y a, Forall (req_ok vp) (gen_pset vp x y a)) /\
   (forall x0 y0 x1 y1 a p, exists l, gen_line vp x0 y0 x1 y1 a p = Ok l /\ Forall (req_ok vp) l) /\
   (forall x0 y0 x1 y1 a p, exists l, gen_box vp x0 y0 x1 y1 a p = Ok l /\ Forall (req_ok vp) l) /\
   (forall x0 y0 x1 y1 a, Forall (req_ok vp) (gen_boxfill vp x0 y0 x1 y1 a)).
 Proof.
-  intros vp Hwf. repeat split.
-  - intros x y a. rewrite gen_pset_is_model. apply pixel_reqs_ok; [exact Hwf | apply (pix_reqs_pixel a [(x, y)])].
-  - intros. eexists. split; [apply gen_line_is_model | apply line_reqs_ok; exact Hwf].
-  - intros. eexists. split; [apply gen_box_is_model | apply box_reqs_ok; exact Hwf].
-  - intros. rewrite gen_boxfill_is_model. apply boxfill_reqs_ok; exact Hwf.
+  intros vp Hwf. split; [|split; [|split]].
+  - intros x y a. apply pixel_reqs_ok; [exact Hwf | apply gen_pset_safe].
+  - intros. destruct (gen_line_safe vp x0 y0 x1 y1 a p) as [l [E F]]. exists l.
+    split; [exact E | apply pixel_reqs_ok; assumption].
+  - intros. destruct (gen_box_safe vp x0 y0 x1 y1 a p) as [l [E F]]. exists l.
+    split; [exact E | apply pixel_reqs_ok; assumption].
+  - intros. apply gen_boxfill_safe; exact Hwf.
 Qed.
 Print Assumptions C30_requests_ok.
 
